@@ -44,7 +44,7 @@ import time
 
 import vt
 
-BIN_DIR = os.environ.get('E4_BIN_DIR', '/verif/target/apps/release')
+BIN_DIR = os.environ.get('E4_BIN_DIR') or os.path.join(os.environ.get('E4_TARGET_DIR', '/verif/target/apps'), 'release')
 SCRATCH = os.environ.get('E4_SCRATCH', '/tmp')
 T_SYNC = float(os.environ.get('E4_TIMEOUT', '5'))
 FILLER = b'*5dab3d17d4ba29;\n'
@@ -125,6 +125,20 @@ class Radar:
         self.termios_before = None
         self.termios_after = None
         self.conn_broken = False
+        self.stale_extra = 0     # extra heartbeats owed because the driver was slow between drain and injection
+        self._t_inject = None
+
+    # -- injection bookkeeping --------------------------------------------------------------
+    # A main-loop iteration of radar lasts >= 10 ms (its event poll has to time out once), so while the driver
+    # spends dt between emptying the pty and finishing an injection at most 1 + dt/10ms heartbeats can have been
+    # emitted that predate the injection.  wait_hb() adds that many to the count it waits for.
+    def _begin_inject(self):
+        self._t_inject = time.monotonic()
+        self.drain()
+
+    def _end_inject(self):
+        dt = time.monotonic() - self._t_inject
+        self.stale_extra = max(self.stale_extra, int(dt / 0.010))
 
     # -- lifecycle --------------------------------------------------------------------------
     def start(self):
@@ -220,7 +234,8 @@ class Radar:
     def wait_hb(self, n, timeout=None):
         """-> 'ok' | 'exited' | 'timeout'"""
         timeout = T_SYNC if timeout is None else timeout
-        target = self.scr.hb + n
+        target = self.scr.hb + n + self.stale_extra
+        self.stale_extra = 0
         end = time.monotonic() + timeout
         while self.scr.hb < target:
             if self.exited():
@@ -295,14 +310,21 @@ class Radar:
             self.conn = None
 
     def keys(self, data):
-        self.drain()
+        self._begin_inject()
         try:
             os.write(self.master, data)
         except OSError:
             pass
+        self._end_inject()
+
+    def inject_send(self, data):
+        self._begin_inject()
+        ok = self.send(data)
+        self._end_inject()
+        return ok
 
     def resize(self, cols, rows):
-        self.drain()
+        self._begin_inject()
         self.cols, self.rows = cols, rows
         fcntl.ioctl(self.master, termios.TIOCSWINSZ, struct.pack('HHHH', rows, cols, 0, 0))
         self.scr.resize(cols, rows)
@@ -310,6 +332,7 @@ class Radar:
             os.kill(self.proc.pid, signal.SIGWINCH)
         except OSError:
             pass
+        self._end_inject()
 
     def wait_exit(self, timeout=None):
         timeout = T_SYNC if timeout is None else timeout
@@ -393,8 +416,7 @@ def run_radar(script):
                     obs['died_at'] = i
                     break
             elif op == 'send':
-                rd.drain()
-                rd.send(bytes.fromhex(st['hex']))
+                rd.inject_send(bytes.fromhex(st['hex']))
             elif op == 'gap':
                 rd.set_filler(False)
                 w = rd.wait_hb(st.get('n', HB_STALE))
@@ -406,8 +428,7 @@ def run_radar(script):
                     obs['died_at'] = i
                     break
             elif op == 'lines':
-                rd.drain()
-                rd.send(bytes.fromhex(st['hex']))
+                rd.inject_send(bytes.fromhex(st['hex']))
                 w = rd.wait_hb(st['n'] + HB_STALE + 2)
                 if w == 'timeout':
                     obs['frozen_at'] = i
